@@ -540,6 +540,16 @@ class JSBoundMethod:
         return self._fn(this_val, *args)
 
 
+def _element_to_int(value: Any) -> int:
+    """Numeric part of the integer element conversions (ToInt8 ... ToUint32):
+    NaN and infinities become 0, everything else is truncated."""
+    if isinstance(value, float):
+        if math.isnan(value) or math.isinf(value):
+            return 0
+        return int(value)
+    return int(value)
+
+
 class JSTypedArray(JSObject):
     """Base class for JavaScript typed arrays."""
 
@@ -603,7 +613,7 @@ class JSTypedArray(JSObject):
 
     def _coerce_value(self, value):
         """Coerce value to the appropriate type. Override in subclasses."""
-        return int(value) if isinstance(value, (int, float)) else 0
+        return _element_to_int(value) if isinstance(value, (int, float)) else 0
 
     def __repr__(self) -> str:
         return f"{self._type_name}({self._data})"
@@ -619,7 +629,7 @@ class JSInt32Array(JSTypedArray):
     def _coerce_value(self, value):
         """Coerce to signed 32-bit integer."""
         if isinstance(value, (int, float)):
-            v = int(value)
+            v = _element_to_int(value)
             # Handle overflow to signed 32-bit
             v = v & 0xFFFFFFFF
             if v >= 0x80000000:
@@ -638,7 +648,7 @@ class JSUint32Array(JSTypedArray):
     def _coerce_value(self, value):
         """Coerce to unsigned 32-bit integer."""
         if isinstance(value, (int, float)):
-            return int(value) & 0xFFFFFFFF
+            return _element_to_int(value) & 0xFFFFFFFF
         return 0
 
 
@@ -678,7 +688,7 @@ class JSUint8Array(JSTypedArray):
     def _coerce_value(self, value):
         """Coerce to unsigned 8-bit integer."""
         if isinstance(value, (int, float)):
-            return int(value) & 0xFF
+            return _element_to_int(value) & 0xFF
         return 0
 
 
@@ -692,7 +702,7 @@ class JSInt8Array(JSTypedArray):
     def _coerce_value(self, value):
         """Coerce to signed 8-bit integer."""
         if isinstance(value, (int, float)):
-            v = int(value) & 0xFF
+            v = _element_to_int(value) & 0xFF
             if v >= 0x80:
                 v -= 0x100
             return v
@@ -709,7 +719,7 @@ class JSInt16Array(JSTypedArray):
     def _coerce_value(self, value):
         """Coerce to signed 16-bit integer."""
         if isinstance(value, (int, float)):
-            v = int(value) & 0xFFFF
+            v = _element_to_int(value) & 0xFFFF
             if v >= 0x8000:
                 v -= 0x10000
             return v
@@ -726,7 +736,7 @@ class JSUint16Array(JSTypedArray):
     def _coerce_value(self, value):
         """Coerce to unsigned 16-bit integer."""
         if isinstance(value, (int, float)):
-            return int(value) & 0xFFFF
+            return _element_to_int(value) & 0xFFFF
         return 0
 
 
@@ -739,14 +749,12 @@ class JSUint8ClampedArray(JSTypedArray):
     def _coerce_value(self, value):
         """Coerce to clamped unsigned 8-bit integer (0-255)."""
         if isinstance(value, (int, float)):
-            # Round half to even for 0.5 values
-            v = round(value)
-            # Clamp to 0-255
-            if v < 0:
+            # Clamp first (NaN becomes 0), then round half to even
+            if value != value or value <= 0:
                 return 0
-            if v > 255:
+            if value >= 255:
                 return 255
-            return v
+            return round(value)
         return 0
 
 
@@ -763,7 +771,11 @@ class JSFloat32Array(JSTypedArray):
 
         if isinstance(value, (int, float)):
             # Convert to float32 and back to simulate precision loss
-            packed = struct.pack("<f", float(value))
+            try:
+                packed = struct.pack("<f", float(value))
+            except OverflowError:
+                # Beyond the float32 range: rounds to an infinity
+                return float("-inf") if value < 0 else float("inf")
             return struct.unpack("<f", packed)[0]
         return 0.0
 
